@@ -122,6 +122,25 @@ class Tree:
             mods = []
             for sm in submods:
                 mods.append((sm, module(prefix + sm + ".", depth + 1)))
+            # aliases whose target lives in a submodule (one or two levels down): `just [mod::]ald args` binds like the target
+            for an, hops in (("ald", 1), ("ald2", 2)):
+                # (a module whose only names are aliases is not generated: the code then says `no recipes`, the model,
+                # which keeps recipes and aliases in one table, `no default recipe` - both are errors that run nothing)
+                if an in used or not recs or rng.random() > 0.5:
+                    continue
+                path, cur = [], {"modules": [[n_, m_] for n_, m_ in mods]}
+                for _ in range(hops):
+                    if not cur["modules"]:
+                        cur = None
+                        break
+                    n_, cur = rng.choice(cur["modules"])
+                    path.append(n_)
+                own = [r_ for r_ in (cur["recipes"] if cur else []) if not r_[0].startswith("al")]
+                if own:
+                    tn, tsig = rng.choice(own)
+                    text += "alias %s := %s::%s\n" % (an, "::".join(path), tn)
+                    aliases.append((an, tsig))
+                    used.add(an)
             fname = "justfile" if depth == 0 else prefix.rstrip(".").split(".")[-1] + ".just"
             self.files[fname] = text
             return {"recipes": [[n_, s_] for n_, s_, _ in recs] + [[a, s_] for a, s_ in aliases],
@@ -136,7 +155,7 @@ class Tree:
             open(os.path.join(d, f), "w").write(t)
 
 
-WORDS = ["r1", "r2", "r3", "build", "m", "n", "x", "al", "a", "b", "", "a=b", "=x", "v1=ov", "var-2=o=p", "zz=1", "m::r1",
+WORDS = ["r1", "r2", "r3", "build", "m", "n", "x", "al", "ald", "ald2", "m::ald", "a", "b", "", "a=b", "=x", "v1=ov", "var-2=o=p", "zz=1", "m::r1",
          "m::n::r1", "m::n", "m::", "::m", "m:::r1", "m:r1", "x::y", "n::r1", "d/x", "a b", "-", "--flag", "r1 ", "R1", "1a=2",
          "v1=a/b", "v1=/", "var-2=../x/", "zz=p/q", "v1=.", "v1=", "v1=m::r1", "v1=r1"]
 
@@ -306,7 +325,7 @@ def run(report):
     report.coverage.update({
         "evaluations": len(cases),
         "distinct_nontrivial": len(distinct),
-        "rule": "every analyzer-valid signature with <=3 parameters over {required, default, default referring to p0, +, *, * with default} x 0..5 words x {alone, followed by a second recipe, as default recipe, with an override} (exhaustive) + random module trees (root / mod m / mod n, aliases, default recipes) x word vectors from an adversarial alphabet (recipe and module names, NAME=VALUE, ::-paths, empty word, words with spaces); distinct = distinct (files, argv)",
+        "rule": "every analyzer-valid signature with <=3 parameters over {required, default, default referring to p0, +, *, * with default} x 0..5 words x {alone, followed by a second recipe, as default recipe, with an override} (exhaustive) + random module trees (root / mod m / mod n, aliases to own recipes and to recipes one and two modules down, default recipes) x word vectors from an adversarial alphabet (recipe and module names, NAME=VALUE, ::-paths, empty word, words with spaces); distinct = distinct (files, argv)",
         "samples": samples,
         "exhaustive": True,
         "traces_validated_against_impl": len(cases),
